@@ -242,10 +242,25 @@ def STiles (G : List Nat → Prop) : List Nat → Nat → Nat → List (Nat × N
 /-- character span of a token -/
 def cspan (t : Spanned) : Nat × Nat := (t.cs, t.ce)
 
-/-- the tokens tile the whole source: the text in front of the first token, between consecutive
-    tokens, and after the last token satisfies `G` -/
+/-- the source without its byte-order mark, and the number of characters the mark takes -/
+def srcBody : List Nat → List Nat
+  | 0xFEFF :: rest => rest
+  | src => src
+
+def bomLen : List Nat → Nat
+  | 0xFEFF :: _ => 1
+  | _ => 0
+
+/-- the text under a token of the stream -/
+def tokText (src : List Nat) (t : Spanned) : List Nat := (src.drop t.cs).take (t.ce - t.cs)
+
+/-- gap predicate of the full lexer, as a `Prop` -/
+def GF (t : List Nat) : Prop := gapFull t = true
+
+/-- the tokens tile the source (behind a byte-order mark, if any): the text in front of the first
+    token, between consecutive tokens, and after the last token satisfies `G` -/
 def Tiles (G : List Nat → Prop) (src : List Nat) (toks : List Spanned) : Prop :=
-  STiles G src 0 src.length (toks.map cspan)
+  STiles G (srcBody src) (bomLen src) src.length (toks.map cspan)
 
 /-! ## brackets, NEWLINE, INDENT / DEDENT -/
 
